@@ -316,13 +316,10 @@ def callee_name(t):
     return (ci.get("resolved") or ci["def"]) if ci else "?"
 
 
-def run(ctx, rep):
+def resolution_rules(ctx, rep, prop):
+    """rules A-E: how a type node written in the source gets its category (shared with the properties that consume categories)"""
     facts = ctx.mir
-    rep.rule("A", "A5 visit sequence of traverse::walk_types_mut (every type-bearing field, any depth by induction) and resolve_types' callback applies resolve_type to the node it is given")
-    rep.rule("B", "A4/A3 on validation::resolve_type: every path on an unresolved node ends with exactly one classification or exactly one Error on the name; classified nodes are untouched")
-    rep.rule("C", "A3 tables vs spec/builtins.json: built-in names, can_be_qualified, qualified ParcelFileDescriptor, get_all complete, from_name / from_qualified_name predicates, Item::get_kind, collect_item_keys entry shape")
-    rep.rule("D", "resolution order per path: import (kind from the project's map under the matched key, else unknown import) before forward declaration before built-in name; a built-in lookup precedes any import-based classification")
-    walkers.check_type_walker(facts, rep, "C05", "traverse::walk_types_mut", "walk_types_mut", True)
+    walkers.check_type_walker(facts, rep, prop, "traverse::walk_types_mut", "walk_types_mut", True)
     # callback of resolve_types
     rtf = facts.fn("validation::resolve_types")
     clos = facts.closures_of("validation::resolve_types")
@@ -339,15 +336,26 @@ def run(ctx, rep):
             ok = all(len([e for e in p.effects if e[0] == "call" and e[1] == RT]) == 1 for p in cp) and calls and calls[0][2] == ("node", "imports", "declared_parcelables", "defined", "diagnostics")
         except KeyError as e:
             det = str(e)
-    rep.check(ok, "A", "C05|A|callback", cfg.where(rtf), "resolve_types' callback must call resolve_type(node, imports, declared_parcelables, defined, diagnostics) exactly once on the node it is given; extracted %r" % (det,))
+    rep.check(ok, "A", "%s|A|callback" % prop, cfg.where(rtf), "resolve_types' callback must call resolve_type(node, imports, declared_parcelables, defined, diagnostics) exactly once on the node it is given; extracted %r" % (det,))
     body = rtf["body"]
     sites = cfg.call_sites(body, lambda c: c == "traverse::walk_types_mut")
-    rep.check(len(sites) == 1, "A", "C05|A|uses-walker", cfg.where(rtf), "resolve_types must hand its callback to traverse::walk_types_mut")
-    resolve_type_rules(ctx, rep)
-    builtin_tables(ctx, rep)
+    rep.check(len(sites) == 1, "A", "%s|A|uses-walker" % prop, cfg.where(rtf), "resolve_types must hand its callback to traverse::walk_types_mut")
+    resolve_type_rules(ctx, rep, prop)
+    builtin_tables(ctx, rep, prop)
     rep.rule("E", "name matching: the predicates of the two searches are extracted as boolean functions of three string tests (equal / dot-bounded suffix / contains a dot) and must be `equal or dot-suffix` for imports and `equal and not dotted` for forward declarations; predicates built from other tests are reported for reading")
-    matching_rules(ctx, rep)
+    matching_rules(ctx, rep, prop)
+
+
+def run(ctx, rep):
+    facts = ctx.mir
+    rep.rule("A", "A5 visit sequence of traverse::walk_types_mut (every type-bearing field, any depth by induction) and resolve_types' callback applies resolve_type to the node it is given")
+    rep.rule("B", "A4/A3 on validation::resolve_type: every path on an unresolved node ends with exactly one classification or exactly one Error on the name; classified nodes are untouched")
+    rep.rule("C", "A3 tables vs spec/builtins.json: built-in names, can_be_qualified, qualified ParcelFileDescriptor, get_all complete, from_name / from_qualified_name predicates, Item::get_kind, collect_item_keys entry shape")
+    rep.rule("D", "resolution order per path: import (kind from the project's map under the matched key, else unknown import) before forward declaration before built-in name; a built-in lookup precedes any import-based classification")
+    resolution_rules(ctx, rep, "C05")
     rep.not_decided += ["correctness of the string primitives themselves (==, ends_with, contains, format!) and predicates written with other primitives (reported, not decided)",
                         "which of several imports with the same simple name wins (C11 decides that the choice is deterministic)",
                         "qualified names of built-ins other than ParcelFileDescriptor (not stated)"]
+    import common_g
+    rep.floor("IN", "grammar actions feeding this rule", common_g.emit_inputs(ctx, rep, "C05"), 5)
     rep.assumptions += ["TB-1 rustc MIR", "TB-4 tabulator", "TB-3 HashMap/HashSet/Iterator semantics: the searches over imports / forward declarations are oracles whose predicates are not analysed"]
